@@ -36,7 +36,7 @@ type c12Cfg struct {
 
 func c12Replay(cs c12Case, checkFrom int) (w *world, fs []F) {
 	w = newWorld(typeByName(cs.T), cs.C)
-	fs = w.run(cs.Ops, checkFrom)
+	fs = core.Guard("views", func() []F { return w.run(cs.Ops, checkFrom) })
 	for i := range fs {
 		fs[i].Msg = fmt.Sprintf("[%s C=%d] history %v :: %s", cs.T, cs.C, cs.Ops, fs[i].Msg)
 	}
@@ -364,8 +364,12 @@ func init() {
 			// another buffer growing afterwards (recycled blocks), self-appends, windows at the tail of a
 			// large parent written through both sides
 			for _, t := range []int{dyn.Int8, dyn.Float64, dyn.Int32} {
-				for C := 1; C <= 3; C++ {
-					for _, S := range []int{24, 400, 1100, 4200, 9000} { // frames
+				for _, C := range []int{1, 2, 3, 9, 65, 256, 300} {
+					sizes := []int{24, 400, 1100, 4200, 9000} // frames
+					if C > 3 {
+						sizes = []int{24}
+					}
+					for _, S := range sizes {
 						cs := c12Case{T: tn(t), C: C}
 						w := newWorld(t, C)
 						ok := true
